@@ -29,8 +29,10 @@
 //
 // Every unbalanced case is made on purpose: the outputs are balanced under a
 // WRONG formula (one term forgotten, pool deposit charged per certificate,
-// burn counted as mint, zero policy treated as ada, ...) or one term of a
-// balanced transaction is moved by +-1. A disagreement is keyed by the wrong
+// burn counted as mint, zero policy treated as ada, tokens of the spent inputs
+// not counted, ...) or a balanced transaction is perturbed: one term moved by
+// +-1, all / one output asset entry dropped, an asset that no input or mint
+// provides added to an output. A disagreement is keyed by the wrong
 // formula that explains the library's answer.
 package c27
 
